@@ -367,6 +367,7 @@ def plans(prop, tier):
               ("v6plain-2vital", B(TokenMode=False, MaxVital=2, MaxFaults=1, MaxClock=1)),
               ("v7-2vital", B(V7=True, MaxVital=2, MaxFaults=1, MaxClock=1)),
               ("v6tok-wrap", B(InitOnline=True, SeqStart=1022, MaxVital=2, MaxFaults=1, MaxClock=1)),
+              ("v7-wrap", B(V7=True, InitOnline=True, SeqStart=1022, MaxVital=2, MaxFaults=1, MaxClock=1)),
               # the accepting side sends three vital chunks (a reset of its sequence numbers shows as a skipped chunk)
               ("v7-sback", B(V7=True, Senders={"c", "s"}, MaxVital=1, MaxVitalS=3, MaxFaults=1, MaxClock=0)),
               ("v6tok-sback", B(Senders={"c", "s"}, MaxVital=1, MaxVitalS=3, MaxFaults=1, MaxClock=0)),
@@ -382,7 +383,8 @@ def plans(prop, tier):
                    ("v7-nv", B(V7=True, MaxVital=1, MaxNV=1, MaxFaults=1, MaxClock=2)),
                    ("v6plain-nv", B(TokenMode=False, MaxVital=1, MaxNV=1, MaxFaults=1, MaxClock=2)),
                    ("v7-both", B(V7=True, Senders={"c", "s"}, MaxVital=1, MaxFaults=1, MaxClock=1)),
-                   ("v7-wrap", B(V7=True, InitOnline=True, SeqStart=1022, MaxVital=2, MaxFaults=1, MaxClock=2)),
+                   ("v7-wrap-clock", B(V7=True, InitOnline=True, SeqStart=1021, MaxVital=3, MaxFaults=1, MaxClock=1)),
+                   ("v6plain-wrap", B(TokenMode=False, InitOnline=True, SeqStart=1022, MaxVital=2, MaxFaults=1, MaxClock=1)),
                    ("v6tok-3inflight", B(MaxVital=2, MaxFaults=1, MaxClock=1, MaxInFlight=3)),
                    ("v7-sback-clock", B(V7=True, Senders={"c", "s"}, MaxVital=1, MaxVitalS=3, MaxFaults=1, MaxClock=1)),
                    ("v6plain-sback-clock", B(TokenMode=False, Senders={"c", "s"}, MaxVital=1, MaxVitalS=3, MaxFaults=1, MaxClock=1))]
@@ -395,8 +397,12 @@ def plans(prop, tier):
         ex = [("v6tok-max", B(Sizes={1023}, MaxVital=2, MaxFaults=1, MaxClock=1)),
               ("v7-max", B(V7=True, Sizes={1387}, MaxVital=2, MaxFaults=1, MaxClock=1)),
               ("v7-over", B(V7=True, Sizes={1388, 1390}, MaxVital=1, MaxFaults=1, MaxClock=1)),
-              ("v6tok-over", B(Sizes={1024, 1390}, MaxVital=1, MaxFaults=0, MaxClock=1))]
-        dr = [(m, "bigchunks", 1, 0) for m in ("v6tok", "v7")] + [("v7", "random", 1, 400)]
+              ("v6tok-over", B(Sizes={1024, 1390}, MaxVital=1, MaxFaults=0, MaxClock=1)),
+              # a backlog of unacknowledged chunks that spans the 10-bit wrap (1022, 1023, 0) must be acknowledged
+              ("v6tok-wrap-backlog", B(InitOnline=True, SeqStart=1021, MaxVital=3, MaxFaults=0, MaxClock=1)),
+              ("v7-wrap-backlog", B(V7=True, InitOnline=True, SeqStart=1021, MaxVital=3, MaxFaults=0, MaxClock=1))]
+        dr = [(m, "bigchunks", 1, 0) for m in ("v6tok", "v7")] + [("v7", "random", 1, 400)] + \
+             [(m, "random", 2, 300) for m in ("v6wrap", "v7wrap")]
         if not q:
             live += [("v6tok-live-L", B(MaxVital=2, MaxNV=1, MaxFaults=1, MaxClock=2)),
                      ("v7-live-L", B(V7=True, MaxVital=2, MaxFaults=1, MaxClock=2))]
